@@ -1,6 +1,7 @@
 /- line-protocol driver for the C13 models (same operations as harness/pure/src/bin/c13.rs) -/
 import Compio.Model.Frame
 import Compio.Model.Cmsg
+import Compio.Model.Sink
 
 open Compio Compio.Frame
 
@@ -123,6 +124,23 @@ def cmsgOp (w : List String) : String :=
     | _, _ => "bad-op"
   | _ => "bad-op"
 
+/-- one call of a `sink` script: `r<d>` poll_ready, `s<hex>` start_send, `f<d>` poll_flush, `c<d>` poll_close -/
+def parseCall (enclose : Bytes → Bytes) (s : String) : Option Sink.Call :=
+  let rest := (s.drop 1).toString
+  match s.toList.head? with
+  | some 'r' => rest.toNat?.map .ready
+  | some 's' => (parseHex rest).map fun p => .send (enclose p)
+  | some 'f' => rest.toNat?.map .flush
+  | some 'c' => rest.toNat?.map .close
+  | _ => none
+
+def showRes : Sink.Res → String
+  | .ready => "R" | .pending => "P" | .panic => "X"
+
+def sinkOp (_f : FramerSpec) (calls : List Sink.Call) : String :=
+  let (s, rs) := Sink.run Sink.step {} calls
+  s!"{String.join (rs.map showRes)} | {hexOf s.io.delivered} {hexOf s.io.buffered} {s.io.flushes} {s.io.shutdowns}"
+
 def step (_ : Unit) (line : String) : Unit × String :=
   if line.startsWith "#case" then ((), line.trimAscii.toString) else
   let out :=
@@ -147,6 +165,13 @@ def step (_ : Unit) (line : String) : Unit × String :=
       | some f, some frags =>
         showOuts (runAll f.extract (fuelFor RState.init frags + 1) RState.init frags)
       | _, _ => "bad-op"
+    | ["sink", f, script] =>
+      match parseFramer f with
+      | some f =>
+        match allSome ((listOf script).map (parseCall f.enclose)) with
+        | some calls => sinkOp f calls
+        | none => "bad-op"
+      | none => "bad-op"
     | "cmsg" :: rest => cmsgOp rest
     | _ => "bad-op"
   ((), out)
